@@ -265,6 +265,66 @@ def exact_query(dom, goals, env, timeout_ms=20000, want_goal=True):
     return r, time.time() - t, len(zvars)
 
 
+def _pinned_sign(dom, pred, sigma, env, timeout_ms=4000):
+    """is sigma * pred > 0 at the pinned inputs?  (z3 NRA on the hypotheses with all inputs fixed)"""
+    zv = {}
+    s = z3.Solver()
+    s.set("timeout", int(timeout_ms))
+    for h in dom.hyps:
+        s.add(poly_to_z3(h, zv, env) == 0)
+    e = poly_to_z3(pred, zv, env)
+    s.add(e > 0 if sigma > 0 else e < 0)
+    for v, x in list(zv.items()):
+        if v in dom.pos:
+            s.add(x > 0)
+        elif v in dom.nonneg:
+            s.add(x >= 0)
+    return str(s.check()) == "sat"
+
+
+def branch_env(dom, pred, sigma, base_env, input_vars, timeout_ms=15000):
+    """inputs on a prescribed side of an undecided comparison (sigma * pred > 0).  First a solver-decided search along the
+    ray through the sampled point (all non-unit inputs scaled by a common factor; every candidate is decided by z3 with
+    the inputs pinned), then a free z3 NRA query with only the unit variables pinned.  None if neither finds inputs."""
+    names = {P.NAMES[v] for v in input_vars}
+    for lam in (Fraction(1), Fraction(1, 10 ** 3), Fraction(1, 10 ** 6), Fraction(1, 10 ** 9), Fraction(1, 10 ** 12),
+                Fraction(10 ** 3), Fraction(10 ** 6)):
+        env = {n: (v if (P.IDS.get(n) in P.UNITS or n not in names) else v * lam) for n, v in base_env.items()}
+        try:
+            if _pinned_sign(dom, pred, sigma, env):
+                return env
+        except Exception:   # noqa: BLE001
+            continue
+    pinned = {n: v for n, v in base_env.items() if P.IDS.get(n) in P.UNITS}
+    zv = {}
+    s = z3.Solver()
+    s.set("timeout", int(timeout_ms))
+    for h in dom.hyps:
+        s.add(poly_to_z3(h, zv, pinned) == 0)
+    e = poly_to_z3(pred, zv, pinned)
+    s.add(e > 0 if sigma > 0 else e < 0)
+    for v, x in list(zv.items()):
+        if v in dom.pos:
+            s.add(x > 0)
+        elif v in dom.nonneg:
+            s.add(x >= 0)
+        if v in input_vars:
+            s.add(x <= 1000, x >= -1000)
+    if str(s.check()) != "sat":
+        return None
+    m = s.model()
+    env = dict(base_env)
+    for v in input_vars:
+        if v in zv:
+            val = m.eval(zv[v], model_completion=True)
+            try:
+                env[P.NAMES[v]] = Fraction(val.numerator_as_long(), val.denominator_as_long())
+            except Exception:   # noqa: BLE001  (algebraic number: rational approximation)
+                a = val.approx(30)
+                env[P.NAMES[v]] = Fraction(a.numerator_as_long(), a.denominator_as_long())
+    return env
+
+
 def close(a, b, rtol=1e-6, atol=1e-8):
     a = np.asarray(a, dtype=float); b = np.asarray(b, dtype=float)
     if a.shape != b.shape:
@@ -327,6 +387,7 @@ class PCase:
         with open(path) as f:
             data = json.load(f)
         dom = PolyDomain()
+        dom.symbolic_sign_preds = True     # undecided comparisons become sign atoms instead of aborting the case
         fn, args = self.make(dom)
         tr = Traced(fn, args)
         env = {k: Fraction(v) for k, v in data["inputs"].items()}
@@ -362,6 +423,7 @@ class PCase:
         dom = PolyDomain()
         self.dom = dom
         t = time.time()
+        dom.symbolic_sign_preds = True     # undecided comparisons become sign atoms instead of aborting the case
         fn, args = self.make(dom)
         tr = Traced(fn, args)
         self.tr = tr
@@ -426,6 +488,19 @@ class PCase:
         except Exception as ex:   # noqa: BLE001
             rep0 = None
             res["notes"].append(f"float screen failed: {ex!r}")
+        # undecided comparisons in the code (guards, clamps, max/min): the seeded point lies on one side of each; ask the
+        # solver for inputs on either side and screen there too
+        branch_reps = []
+        for pred in list(getattr(dom, "branch_preds", []))[:4]:
+            for sigma in (-1, 1):
+                try:
+                    benv = branch_env(dom, pred, sigma, env0, input_vars)
+                    if benv is not None and benv != env0:
+                        branch_reps.append((pred, sigma, benv, self.replay_float(tr, args, benv)))
+                except Exception as ex:   # noqa: BLE001
+                    res["notes"].append(f"branch screen failed for {str(pred)[:60]}: {ex!r}")
+        res["encoded"]["undecided_comparisons"] = len(getattr(dom, "branch_preds", []))
+        res["encoded"]["branch_points_screened"] = len(branch_reps)
         deadline = float(os.environ.get("VERIF_DEADLINE", "0")) or None
         for label, (a, b) in pairs.items():
             la, lb = _flat(a), _flat(b)
@@ -441,6 +516,9 @@ class PCase:
             pr = xl.Result()
             pr.status = "not_proved"
             screened_bad = shape_bad or (rep0 is not None and label in rep0 and not rep0[label]["ok"])
+            branch_hit = next(((pr_, sg_, en_, rp_) for (pr_, sg_, en_, rp_) in branch_reps
+                               if label in rp_ and not rp_[label]["ok"]), None)
+            screened_bad = screened_bad or branch_hit is not None
             if not screened_bad:
                 for extra in range(self.extra_deg, self.extra_deg + self.deepen + 1):
                     budget = self.budget_s
@@ -470,16 +548,32 @@ class PCase:
                 ob["direct_identity_verdicts"] = sorted(set(v["verdict"] for v in vd))
                 ob["nontrivial"] = True
             if pr.status == "not_proved":
-                self._refute(ob, tr, args, dom, goals, label, seed, log, replay_dir)
+                self._refute(ob, tr, args, dom, goals, label, seed, log, replay_dir, branch_hit=branch_hit)
             ob["wall_s"] = round(time.time() - tt, 2)
             res["obligations"].append(ob)
             log(f"  [{self.id}] {label}: {ob['status']} goals={ob['n_goals']} deg={ob['goal_deg']} "
                 f"rows={pr.rows} monos={pr.monos} {ob['wall_s']}s")
         res["sample_inputs"] = {k: str(v) for k, v in list(env0.items())[:12]}
 
-    def _refute(self, ob, tr, args, dom, goals, label, seed, log, replay_dir):
+    def _refute(self, ob, tr, args, dom, goals, label, seed, log, replay_dir, branch_hit=None):
         input_vars = set(tr.input_vars)
         tries = []
+        if branch_hit is not None:
+            pred, sigma, env, rep = branch_hit
+            ob["status"] = "violated"
+            ob["counterexample"] = {"inputs": {k: str(v) for k, v in env.items()}, "label": label,
+                                    "impl": rep[label]["impl"], "oracle": rep[label]["oracle"],
+                                    "max_abs_err": rep[label]["max_abs_err"],
+                                    "found_by": f"z3: inputs with ({str(pred)[:60]}) {'>' if sigma > 0 else '<'} 0, replayed on the real code"}
+            if replay_dir:
+                os.makedirs(replay_dir, exist_ok=True)
+                path = os.path.join(replay_dir, ob["id"].replace("/", "__") + ".json")
+                with open(path, "w") as f:
+                    json.dump({"case": self.id, "obligation": ob["id"], "label": label, "seed": seed, "attempt": 0,
+                               **ob["counterexample"]}, f, indent=1)
+                ob["replay"] = path
+            ob["refutation"] = [{"branch": str(pred)[:80], "side": sigma, "replay_discrepancy": True}]
+            return
         for attempt in range(3):
             env = pick_env(dom, input_vars, seed, attempt=attempt)
             rep = self.replay_float(tr, args, env)
@@ -508,6 +602,44 @@ class PCase:
                     ob["replay"] = path
                 break
             tries.append(entry)
+        # undecided comparisons in the code (guards, clamps, max/min): ask the solver for inputs on either side of each
+        # and replay there -- the seeded points above all lie on one side
+        if ob["status"] == "not_proved":
+            base = pick_env(dom, input_vars, seed, attempt=0)
+            for pred in list(getattr(dom, "branch_preds", []))[:4]:
+                for sigma in (-1, 1):
+                    try:
+                        env = branch_env(dom, pred, sigma, base, input_vars)
+                    except Exception as ex:   # noqa: BLE001
+                        tries.append({"branch": str(pred)[:80], "side": sigma, "error": repr(ex)})
+                        continue
+                    if env is None:
+                        tries.append({"branch": str(pred)[:80], "side": sigma, "solver": "no inputs found"})
+                        continue
+                    try:
+                        rep = self.replay_float(tr, args, env)
+                    except Exception as ex:   # noqa: BLE001
+                        tries.append({"branch": str(pred)[:80], "side": sigma, "replay_error": repr(ex)})
+                        continue
+                    bad = not rep[label]["ok"]
+                    tries.append({"branch": str(pred)[:80], "side": sigma, "replay_discrepancy": bad,
+                                  "max_abs_err": rep[label]["max_abs_err"]})
+                    if bad:
+                        ob["status"] = "violated"
+                        ob["counterexample"] = {"inputs": {k: str(v) for k, v in env.items()}, "label": label,
+                                                "impl": rep[label]["impl"], "oracle": rep[label]["oracle"],
+                                                "max_abs_err": rep[label]["max_abs_err"],
+                                                "found_by": f"z3: inputs with ({str(pred)[:60]}) {'>' if sigma > 0 else '<'} 0, replayed on the real code"}
+                        if replay_dir:
+                            os.makedirs(replay_dir, exist_ok=True)
+                            path = os.path.join(replay_dir, ob["id"].replace("/", "__") + ".json")
+                            with open(path, "w") as f:
+                                json.dump({"case": self.id, "obligation": ob["id"], "label": label, "seed": seed,
+                                           "attempt": 0, **ob["counterexample"]}, f, indent=1)
+                            ob["replay"] = path
+                        break
+                if ob["status"] == "violated":
+                    break
         ob["refutation"] = tries
         if ob["status"] == "not_proved":
             ob["status"] = "inconclusive"
